@@ -26,7 +26,8 @@ type VerifBlend struct {
 }
 
 // VerifShape is one node of a reified shape.  Kind names the constructor ("Sphere", "Box3D",
-// "Transform3", ..., "Screw", "Mesh2", "Cache2", "Opaque2", "Opaque3"); F and N hold the recovered
+// "Transform3", ..., "Screw", "Mesh2", "Cache2", "FlatFlankCam", "ThreeArcCam", "Flange1", "ArcSpiral",
+// "Rack2", "Opaque2", "Opaque3"); F and N hold the recovered
 // constructor arguments in the order of the public constructor (matrices row major); Exact is
 // false when an argument had to be recomputed with rounding (an inverted matrix, a re-added
 // rounding radius, a probed closure).  Shared sub-shapes are shared nodes (same ID).
@@ -292,6 +293,27 @@ func (d *verifDumper) dump2(s SDF2) *VerifShape {
 		n.Kind, n.Kids = "Cache2", []*VerifShape{d.dump2(x.sdf)}
 	case *MeshSDF2:
 		n.Kind, n.Segs = "Mesh2", verifQtPieces(x.qt, nil)
+	case *MeshSDF2Slow:
+		// the same observable as a MeshSDF2 over the original segments
+		n.Kind = "Mesh2"
+		for _, li := range x.mesh {
+			n.Segs = append(n.Segs, *li.line)
+		}
+	case *FlatFlankCamSDF2:
+		n.Kind, n.F = "FlatFlankCam", []float64{x.distance, x.baseRadius, x.noseRadius}
+	case *ThreeArcCamSDF2:
+		n.Kind, n.F = "ThreeArcCam", []float64{x.distance, x.baseRadius, x.noseRadius, x.flankRadius}
+	case *Flange1:
+		n.Kind, n.F = "Flange1", []float64{x.distance, x.centerRadius, x.sideRadius}
+	case *ArcSpiralSDF2:
+		// ArcSpiral2D installs n = 1 and orders the two angles
+		if x.spiral.n != 1.0 {
+			return d.opaque2(n, "ArcSpiralSDF2: exponent n != 1")
+		}
+		n.Kind, n.F = "ArcSpiral", []float64{x.spiral.a, x.spiral.k, x.start.Theta, x.end.Theta, x.d}
+	case *GearRackSDF2:
+		// the stored fields: tooth profile, pitch, half length (the box is n.Box2)
+		n.Kind, n.F, n.Kids = "Rack2", []float64{x.pitch, x.length}, []*VerifShape{d.dump2(x.tooth)}
 	default:
 		return d.opaque2(n, "no model of "+n.GoType)
 	}
